@@ -11,12 +11,17 @@ of readers opened and closed in any order:
 * no committing writer ever writes a page of an open reader's snapshot (`reader_pages_never_written`);
 * no page of an open reader's snapshot is ever in the shared free set (`reader_pages_never_free`).
 A page that is never written keeps its bytes, and a reader resolves its snapshot only through pages of
-`reach`, so what it observes cannot change.  The tie to the code is exact and checked on every commit
+`reach`, so what it observes cannot change.  Readers may also begin and end WHILE a write transaction is open (between its begin, where it decides what
+to release, and its commit): that order is covered by the model with the writer's begin and commit as
+separate events (`Jamm/Model/Conc.lean`, shared with C04): `invariant_with_writer_open`,
+`reader_pages_safe_with_writer_open`.
+The tie to the code is exact and checked on every commit
 of the correspondence run: the writer's freed / allocated page sets are extracted from consecutive
 real files, the model applies its own release rule, and the real in-memory free list (hook accessor)
 must equal the model's.
 -/
 import Jamm.Proofs.FreelistLemmas
+import Jamm.Proofs.ConcLemmas
 set_option linter.unusedSectionVars false
 
 namespace Jamm.Props.C03
@@ -43,6 +48,30 @@ theorem reader_pages_never_free (s : Sys) (evs : List Ev) (s' : Sys) (hi : s.inv
 /-- a reader's snapshot is a value: no event changes the snapshot an open reader holds -/
 theorem reader_snapshot_is_a_value (s : Sys) (w : WriterTx) :
     (s.step (.commitW w)).readers = s.readers ∧ (s.step (.dropW w)).readers = s.readers := ⟨rfl, rfl⟩
+
+/-- the same with the writer's begin and its commit as separate events, readers beginning and ending in
+between (single-threaded histories in which a reader is opened or closed while a write transaction is open) -/
+theorem invariant_with_writer_open (s : Sys2) (evs : List Ev2) (s' : Sys2) (hi : s.base.invB = true)
+    (hw : s.writer = none) (hch : s.choosing = []) (hat : evs.all Ev2.atomic = true)
+    (h : s.run evs = some s') : s'.base.invB = true :=
+  inv2_run s evs s' hi hw hch hat h
+
+/-- … and when the open writer commits, no page of any open reader's snapshot is free or written, whether
+the reader began before the writer, or after the writer's begin -/
+theorem reader_pages_safe_with_writer_open (s : Sys2) (evs : List Ev2) (s' : Sys2) (hi : s.base.invB = true)
+    (hw : s.writer = none) (hch : s.choosing = []) (hat : evs.all Ev2.atomic = true)
+    (h : s.run evs = some s') (w : WriterTx) (hen : s'.enabledB (.commitW w) = true) :
+    s'.readersSafeB w = true :=
+  readers_safe_run s evs s' hi hw hch hat h w hen
+
+/-- non-vacuity: a reader begins after the writer's begin and is still open when the writer commits and
+when the next writer reuses pages -/
+example :
+    let s0 : Sys2 := { cur := { txId := 0, reach := [2, 3] }, shared := {}, readers := [], numPages := 4 }
+    let evs : List Ev2 := [.beginW, .beginR, .commitW { freed := [3], requests := [1] },
+                           .beginW, .commitW { freed := [4], requests := [1] }, .beginW]
+    ((s0.run evs).map (fun s => (s.readers.map (·.reach), s.readersSafeB { freed := [5], requests := [1] }))) =
+      some ([[2, 3]], true) := by decide
 
 /-- non-vacuity: a reader held across two page-reusing commits -/
 example :
